@@ -48,6 +48,7 @@ class Scheduler:
         self.error = None
         self.aborting = False
         self.lock_ops = 0
+        self.point_filter = None   # callable(label) -> bool: False = no scheduling point here unless the thread must block
 
     # ---- registration
     def spawn(self, fn, name=None):
@@ -211,7 +212,9 @@ class SchedLock:
         if not blocking and not self._acquirable_by(t):
             t.waiting_for = None
             return False
-        s.point(f'acquire:{self.name}')
+        label = f'acquire:{self.name}'
+        if s.point_filter is None or s.point_filter(label) or not self._acquirable_by(t):
+            s.point(label)
         # scheduled => acquirable (enabledness of a waiting thread requires it)
         if not self._acquirable_by(t):
             s._fail(RuntimeError(f'scheduler bug: {t.name} scheduled but {self.name} is held'))
@@ -236,7 +239,9 @@ class SchedLock:
         self.count -= 1
         if self.count == 0:
             self.owner = None
-            s.point(f'release:{self.name}')
+            label = f'release:{self.name}'
+            if s.point_filter is None or s.point_filter(label):
+                s.point(label)
 
     def locked(self):
         return self.owner is not None
@@ -263,13 +268,45 @@ def preemptions(trace):
     return n
 
 
-def explore(run_one, bound, max_executions=None, on_execution=None, weight=None):
+def children(trace, prefix_len, bound, weight=None):
+    """Alternative prefixes (one more deviation) below an executed schedule, within the preemption bound."""
+    choices = [c for c, *_ in trace]
+    cost = 0
+    costs_before = []
+    for c, order, cur, label, cur_enabled in trace:
+        costs_before.append(cost)
+        if cur_enabled and c != 0:
+            cost += weight(label) if weight else 1
+    out = []
+    for i in range(len(trace) - 1, prefix_len - 1, -1):
+        c, order, cur, label, cur_enabled = trace[i]
+        for alt in range(len(order) - 1, 0, -1):
+            extra = (weight(label) if weight else 1) if cur_enabled else 0
+            if costs_before[i] + extra > bound:
+                continue
+            out.append(choices[:i] + [alt])
+    return out
+
+
+def explore(run_one, bound, max_executions=None, on_execution=None, weight=None, start=None, depth_limit=None):
     """Enumerate all schedules with at most `bound` preemptions.
 
     run_one(prefix) -> (trace, observation): runs one execution replaying `prefix` and then always choice 0.
-    Returns (executions, capped).
+    `start`: list of prefixes to start from (default: the empty prefix = the whole tree).
+    `depth_limit`: if 0, only the start prefixes are executed and their children are returned instead of explored.
+    Returns (executions, capped) or, with depth_limit=0, (executions, children prefixes).
     """
-    stack = [[]]
+    stack = [list(p) for p in (start if start is not None else [[]])]
+    if depth_limit == 0:
+        kids = []
+        n = 0
+        for prefix in stack:
+            trace, obs = run_one(prefix)
+            n += 1
+            if on_execution is not None:
+                on_execution(prefix, trace, obs)
+            kids.extend(children(trace, len(prefix), bound, weight))
+        return n, kids
     executions = 0
     capped = False
     while stack:
@@ -296,3 +333,24 @@ def explore(run_one, bound, max_executions=None, on_execution=None, weight=None)
                     continue
                 stack.append(choices[:i] + [alt])
     return executions, capped
+
+
+def run_partitioned(ctx, worker_fn, scenario_args, key_of, group=6):
+    """Two-phase parallel exploration: phase 1 runs the default schedule of every scenario and collects its first-level
+    alternatives; phase 2 explores the subtrees below groups of those alternatives on all workers.
+
+    worker_fn(acc, (scenario_arg, start_prefixes | None, expand_only)) must call `explore` accordingly and, when
+    expand_only, `acc.emit((key, child_prefixes))`.
+    """
+    del ctx.emitted[:]
+    ctx.pmap(worker_fn, [(a, None, True) for a in scenario_args], chunksize=1)
+    kids = list(ctx.emitted)
+    del ctx.emitted[:]
+    by_key = {key_of(a): a for a in scenario_args}
+    jobs = []
+    for key, prefixes in kids:
+        for i in range(0, len(prefixes), group):
+            jobs.append((by_key[key], prefixes[i:i + group], False))
+    # largest scenarios first is not needed: groups are small and uniform
+    ctx.pmap(worker_fn, jobs, chunksize=1)
+    return len(jobs)
